@@ -458,7 +458,41 @@ func (g *vfGen) compat(op string, depth int) *vfNode {
 		// the same query restricted differently
 		right = g.where(g.reeval(left.clone()))
 	}
-	n := &vfNode{op: op, src: left, src2: right, out: left.out}
+	out := left.out
+	if g.r.IntN(5) == 0 {
+		// one side gets a column the other side lacks (there it reads as ""), extended with a constant - half of the time
+		// with "" itself, so that the sides are not disjoint on it although the column is fixed on one side only
+		kind := vfStr
+		lit := vfS("")
+		switch g.r.IntN(4) {
+		case 0:
+			kind, lit = vfNum, vfInt(1)
+		case 1:
+			lit = vfS("a")
+		}
+		name := g.newName(kind, append(vfColNames(left.out), vfColNames(right.out)...))
+		side := right
+		if g.r.IntN(3) == 0 {
+			side = left
+		}
+		ext := &vfNode{op: "extend", src: side, out: append(slices.Clone(side.out), vfCol{name, kind}),
+			ecols: []string{name}, eexprs: []*vfExpr{vfConst(lit)}}
+		if ext = g.tryFinish(ext); ext == nil {
+			return nil
+		}
+		if side == right {
+			right = ext
+			if op == "union" {
+				out = ext.out
+			}
+		} else {
+			left = ext
+			if op != "intersect" {
+				out = ext.out
+			}
+		}
+	}
+	n := &vfNode{op: op, src: left, src2: right, out: out}
 	return g.tryFinish(n)
 }
 
